@@ -48,6 +48,7 @@ func init() {
 		MinCounts:   map[string]int{"WG-DISCIPLINE": 4, "RECHECK": 1, "ERR-AGG": 2, "SEMA-PAIR": 2},
 		Trusted:     trustedBase,
 		Controls: []core.Control{
+			{Name: "worker-frees-slot-before-publishing-break", Rule: "RECHECK", File: "pkg/eval/builtin_fn_flow.go", Old: "\t\t\tex := f.Call(newFm, []any{v}, NoOpts)\n\n\t\t\tif ex != nil {\n\t\t\t\tswitch Reason(ex) {\n\t\t\t\tcase nil, Continue:\n\t\t\t\t\t// nop\n\t\t\t\tcase Break:\n\t\t\t\t\tatomic.StoreInt32(&broken, 1)", New: "\t\t\tex := f.Call(newFm, []any{v}, NoOpts)\n\t\t\tif workerSema != nil {\n\t\t\t\tworkerSema.Release(1)\n\t\t\t}\n\n\t\t\tif ex != nil {\n\t\t\t\tswitch Reason(ex) {\n\t\t\t\tcase nil, Continue:\n\t\t\t\t\t// nop\n\t\t\t\tcase Break:\n\t\t\t\t\tatomic.StoreInt32(&broken, 1)", Fire: true, Want: "before freeing its slot"},
 			{Name: "revert-fix-recheck-broken", Rule: "RECHECK", File: "pkg/eval/builtin_fn_flow.go", Old: "\t\t\tif atomic.LoadInt32(&broken) != 0 {\n\t\t\t\tworkerSema.Release(1)\n\t\t\t\treturn\n\t\t\t}\n", New: "", Fire: true, Quick: true},
 			{Name: "recheck-without-release", Rule: "SEMA-PAIR", File: "pkg/eval/builtin_fn_flow.go", Old: "\t\t\tif atomic.LoadInt32(&broken) != 0 {\n\t\t\t\tworkerSema.Release(1)\n\t\t\t\treturn\n\t\t\t}\n", New: "\t\t\tif atomic.LoadInt32(&broken) != 0 {\n\t\t\t\treturn\n\t\t\t}\n", Fire: true},
 			{Name: "worker-release-only-on-success", Rule: "SEMA-PAIR", File: "pkg/eval/builtin_fn_flow.go", Old: "\t\t\twg.Done()\n\t\t\tif workerSema != nil {\n\t\t\t\tworkerSema.Release(1)\n\t\t\t}", New: "\t\t\twg.Done()\n\t\t\tif workerSema != nil && ex == nil {\n\t\t\t\tworkerSema.Release(1)\n\t\t\t}", Fire: true},
@@ -672,6 +673,56 @@ func runC20(p *core.Program, r *core.Report) {
 			} else {
 				r.OK("RECHECK", "eval.peach broken flag re-read after blocking Acquire", p.InsPos(acq), "every path from Acquire to the go statement re-reads the flag")
 			}
+		}
+		// RECHECK, worker side: the re-read after Acquire only helps if a
+		// worker publishes its stop request BEFORE it frees its slot. In the
+		// worker goroutine no store to the flag is reachable from Release.
+		if acq != nil {
+			isFlagStore := func(x ssa.Instruction) bool {
+				return isCallTo(x, "sync/atomic.StoreInt32") || isCallTo(x, "sync/atomic.CompareAndSwapInt32") || isCallTo(x, "sync/atomic.AddInt32") || isAtomicStoreMethod(x)
+			}
+			isRelease := func(x ssa.Instruction) bool {
+				return isCallTo(x, "(*golang.org/x/sync/semaphore.Weighted).Release")
+			}
+			core.Instrs(perInput, func(ins ssa.Instruction) {
+				g, ok := ins.(*ssa.Go)
+				if !ok {
+					return
+				}
+				worker, _ := closureOf(g.Call.Value)
+				if worker == nil {
+					return
+				}
+				var rels []ssa.Instruction
+				stores := 0
+				core.Instrs(worker, func(x ssa.Instruction) {
+					if isRelease(x) {
+						rels = append(rels, x)
+					}
+					if isFlagStore(x) {
+						stores++
+					}
+				})
+				if len(rels) == 0 || stores == 0 {
+					return
+				}
+				construct := "eval.peach worker publishes its stop request before freeing its slot"
+				late := false
+				var where ssa.Instruction
+				for _, rel := range rels {
+					if _, isDefer := rel.(*ssa.Defer); isDefer {
+						continue // runs at the very end of the worker
+					}
+					if reach, hit := core.Reaches(rel, isFlagStore, nil); reach {
+						late, where = true, hit
+					}
+				}
+				if late {
+					r.Bad("RECHECK", construct, p.InsPos(where), "the worker frees its semaphore slot before it records that the iteration must stop: the producer, woken by the free slot, re-reads the flag too early and starts one more callback after a break or failure (peach &num-workers=1 differs from each)")
+				} else {
+					r.OK("RECHECK", construct, p.InsPos(rels[0]), "no store to the stop flag is reachable after Release in the worker")
+				}
+			})
 		}
 		// SEMA-PAIR (a): acquired-but-unused slots are released before returning
 		if acq != nil {
